@@ -276,7 +276,11 @@ func runNat(c *Ctx) {
 		}
 		switch nc.name {
 		case "slice":
-			push(h.genArg(r, 1, 1, 10))
+			a := h.genArg(r, 1, 1, 10)
+			if _, isStr := a.(string); isStr {
+				a = 7 // string slicing is not a container matter (C14)
+			}
+			push(a)
 			bound := func() any {
 				switch r.Intn(6) {
 				case 0:
